@@ -429,6 +429,126 @@ def _model_for(part_name, tier="quick", seed=0):
     raise KeyError(part_name)
 
 
+
+# ----------------------------------------------------------------------------------------------------------------
+# type sweep: every data-object type of the package's own public table, on both back-ends (small exhaustive lattice)
+# ----------------------------------------------------------------------------------------------------------------
+def type_table():
+    """{type id: top-level key of a message of that type} from the package's public table (fallback: the four pool types)."""
+    try:
+        from flexstack.facilities.local_dynamic_map.ldm_constants import DATA_OBJECT_TYPE_ID
+        return {int(k): str(v) for k, v in dict(DATA_OBJECT_TYPE_ID).items()}
+    except Exception:  # noqa: BLE001
+        return dict(L.TYPE_KEY)
+
+
+def minimal_message(table, tid, station):
+    return {"header": {"protocolVersion": 2, "messageId": tid, "stationId": station}, table[tid]: {"generationDeltaTime": station % 1000}}
+
+
+def sweep_one(table, tid, backend, tmpdir=None):
+    """One type on one back-end: register provider + consumer for it, add an object of the type (and a bystander of another
+    type), unfiltered request for EVERY type of the table, update, requests again, delete, requests again.
+    -> (real calls, observation digest rows, violation records)"""
+    calls, rows, bad = 0, [], []
+    other = next(t for t in sorted(table) if t != tid and t != 1)      # bystander type (never DENM: its provider needs no permission)
+    w = LdmWorld(backend, db_dir=tmpdir, db_name=f"sweep_{tid}.json") if backend != "Dictionary" else LdmWorld("Dictionary")
+    base = dict(type_id=tid, type_key=table[tid], backend=backend)
+
+    def v(what, phase, **kw):
+        bad.append(dict(kind="type_sweep", what=what, phase=phase, **base, **kw))
+
+    def expected(content, other_content, ts, ts2):
+        d = L.LOCS["near"]["d"]
+        loc = R.location_record(L.LDM_LAT + d[0], L.LDM_LON + d[1], L.LDM_ALT + d[2])
+        mine = None if content is None else {"application_id": tid, "timestamp": ts, "location": loc, "dataObject": content, "timeValidity": 60}
+        by = {"application_id": other, "timestamp": ts2, "location": loc, "dataObject": other_content, "timeValidity": 60}
+        return mine, by
+
+    def requests(phase, mine, bystander):
+        nonlocal calls
+        for u in sorted(table):
+            calls += 1
+            q = w.request(tid, (u,))
+            if is_exc(q):
+                v("request_raises", phase, requested=u, exc=q[1], text=q[2])
+                continue
+            code, data = q
+            have = Counter(ckey(x, strict=False) for x in data)
+            want = Counter()
+            if u == tid and mine is not None:
+                want[ckey(mine, strict=False)] += 1
+            if u == other:
+                want[ckey(bystander, strict=False)] += 1
+            rows.append((tid, backend, phase, u, code, len(data)))
+            if code != 0:
+                v("request_refused", phase, requested=u, result=code)
+            elif have != want:
+                if u == tid:
+                    v("own_type_query_wrong", phase, requested=u, got_n=len(data), want_n=sum(want.values()), lost=bool(want - have), extra=bool(have - want))
+                else:
+                    v("other_type_query_wrong", phase, requested=u, got_n=len(data), want_n=sum(want.values()), lost=bool(want - have), extra=bool(have - want))
+
+    try:
+        for app in (tid, other):
+            calls += 1
+            if w.reg_provider(app) != 0:
+                v("provider_registration_rejected", "setup", app=app)
+        calls += 1
+        if w.reg_consumer(tid, tuple(sorted(table))) != 0:
+            v("consumer_registration_rejected", "setup")
+        a, b, o = minimal_message(table, tid, 5000 + tid), minimal_message(table, tid, 6000 + tid), minimal_message(table, other, 7000 + other)
+        ts = L.its_ms(w.now)
+        calls += 2
+        oid_o = w.add(other, minimal_message(table, other, 7000 + other), 60, "near")
+        oid = w.add(tid, minimal_message(table, tid, 5000 + tid), 60, "near")
+        if not (isinstance(oid, int) and oid >= 0 and isinstance(oid_o, int) and oid_o >= 0 and oid != oid_o):
+            v("add_failed", "add", got=repr(oid), bystander=repr(oid_o))
+            return calls, rows, bad
+        requests("after_add", *expected(a, o, ts, ts))
+        w.advance(1)
+        calls += 1
+        r = w.update(tid, oid, minimal_message(table, tid, 6000 + tid))
+        if r != 0:
+            v("update_refused", "update", result=repr(r))
+            b = a
+        requests("after_update", *expected(b, o, ts, ts))
+        calls += 1
+        r = w.delete(tid, oid)
+        if r != 0:
+            v("delete_refused", "delete", result=repr(r))
+        else:
+            requests("after_delete", *expected(None, o, ts, ts))
+    finally:
+        w.close()
+    return calls, rows, bad
+
+
+def type_sweep(ctx):
+    import shutil
+    import tempfile
+    table = type_table()
+    tmpdir = tempfile.mkdtemp(prefix="verif_c12_")
+    calls, rows, n_bad = 0, [], 0
+    try:
+        for backend in ("Dictionary", "TinyDB"):
+            for tid in sorted(table):
+                c, r, bad = sweep_one(table, tid, backend, tmpdir)
+                calls += c
+                rows += r
+                n_bad += len(bad)
+                for rec in bad:
+                    rec["part"] = "type_sweep"
+                    ctx.violation(rec, replay=dict(part="type_sweep", type_id=tid, backend=backend))
+    finally:
+        shutil.rmtree(tmpdir, ignore_errors=True)
+    import hashlib
+    digest = hashlib.sha256(repr(rows).encode()).hexdigest()[:16]
+    ctx.parts["type_sweep"] = dict(types=len(table), type_ids=sorted(table), backends=2, real_calls=calls, request_evaluations=len(rows),
+                                   configurations=len(table) * 2 * 3, violations=n_bad, exhaustive=True)
+    return calls, len(table) * 2 * 3, digest
+
+
 def run(ctx):
     states = trans = xchecks = pruned = ambiguous = 0
     digests, samples, caps = [], [], []
@@ -466,6 +586,10 @@ def run(ctx):
         ctx.parts[p["name"]] = dict(states=r.states, transitions=r.transitions, max_depth=r.max_depth, depth_bound=p["depth"],
                                     alphabet=len(p["alphabet"]), pruned_successors=r.pruned, xchecks=r.xchecks, outcomes=len(r.outcomes),
                                     graph_closed=r.complete, states_per_depth=r.depth_hist)
+    sweep_calls, sweep_states, sweep_digest = type_sweep(ctx)
+    states += sweep_states
+    trans += sweep_calls
+    digests.append(("type_sweep", sweep_digest))
     ctx.coverage.update(
         states=states, transitions=trans, traces_validated_against_impl=trans, replay_crosschecks=xchecks,
         pruned_successors_behind_findings=pruned, pruned_ambiguous_without_by_id_view=ambiguous, distinct_outcomes=len(outcomes), exhaustive=complete, caps=caps, state_digests=digests,
@@ -476,6 +600,8 @@ def run(ctx):
                      "store/registries with relative times"),
     )
     ctx.assumptions += [
+        "type sweep: the set of data-object types is the package's public table ldm_constants.DATA_OBJECT_TYPE_ID; a minimal message of a type is "
+        "{header, <type key>: {...}}; the sweep also demands that a request for type u returns no object of another type",
         "reference map mc/ref/ldm_model.py:RefStore; validity lapses at added+validity seconds; an object MAY be missing from the lapse on and MUST "
         "be missing once an explicit maintenance ran in a later clock second (one-second clock resolution of the LDM)",
         "objects outside the area of maintenance (55 km away) may be dropped at any time; objects at the LDM position or 100 m away must be kept",
@@ -490,6 +616,17 @@ def replay(path):
     rec = json.load(open(path))
     print(json.dumps(rec["violation"], indent=1))
     rp = rec["replay"]
+    if rp["part"] == "type_sweep":
+        import shutil
+        import tempfile
+        tmpdir = tempfile.mkdtemp(prefix="verif_c12_")
+        try:
+            _c, rows, bad = sweep_one(type_table(), rp["type_id"], rp["backend"], tmpdir)
+        finally:
+            shutil.rmtree(tmpdir, ignore_errors=True)
+        for b in bad:
+            print(json.dumps(b))
+        return 1 if bad else 0
     m = _model_for(rp["part"], rp.get("tier", "quick"))
     w = m.init()
     bad = []
